@@ -12,7 +12,8 @@
 //!            "outcome":{"run":{success,iterations,labels,counterexample,logs},
 //!                       "run_n_times":{counterexample:{kind,value,choices},remaining,labels,
 //!                                      "check":{reeval:{failed,..},replay:{kind,value,eq}}}},
-//!            "others":[{"where":"repeat#k|rebuild|thread#k","part","same","outcome"}]}],
+//!            "others":[{"where":"repeat#k|rebuild|thread#k","part","same","outcome"}],
+//!            "ms", "simplify":{"events","steps"}}],      (steps: read off the framework's stderr)
 //!          "loops":{"<seed>":[{"choices","value","failed","labels","replay_eq"} | {"stop":..}]}}
 use aiken_lang::ast::{Definition, ModuleKind, OnTestFailure};
 use aiken_lang::plutus_version::PlutusVersion;
